@@ -378,7 +378,7 @@ def run(ctx, rep):
             rep.violation("C01.3", cons, f"the {part} of an alias slice is never printed: `map a r[0:4:2]` loses its {part}")
 
     # ------------------------------------------------------------ C01.5
-    rep.rule("C01.5", "IR-valued holes go through the value printer (or the class prints its name)", floor=1)
+    rep.rule("C01.5", "IR-valued holes go through the value printer (or the class prints its name)", floor=0)
     printer_funcs = {f.qualname for f, _ in printers}
     for f in tr.funcs:
         if f.qualname in printer_funcs:
